@@ -271,6 +271,8 @@ type Ent struct {
 	Link    string   // hard link id (hex) or ""
 	Counter int32    // effective hard link counter
 	RawCnt  int32
+	RawMode uint32 // mode stored in the entry itself (differs from Mode for a stale hard-link copy)
+	RawT    string // mtime class of the entry itself
 	Walked  bool // reached by a ListEntries walk from "/"
 }
 
@@ -451,7 +453,15 @@ func (w *World) Observe(linkIds map[string]bool) State {
 	}
 	walk("/", 0)
 	for _, r := range raws {
-		en := Ent{Path: r.path, Dir: r.e.IsDirectory(), Raw: chunkStrs(r.e.Chunks), RawCnt: r.e.HardLinkCounter, Walked: walked[r.path]}
+		en := Ent{Path: r.path, Dir: r.e.IsDirectory(), Raw: chunkStrs(r.e.Chunks), RawCnt: r.e.HardLinkCounter, RawMode: uint32(r.e.Mode), Walked: walked[r.path]}
+		switch {
+		case en.Dir:
+			en.RawT = "-"
+		case r.e.Mtime.Unix() == 1000:
+			en.RawT = "f"
+		default:
+			en.RawT = "n"
+		}
 		if len(r.e.HardLinkId) > 0 {
 			en.Link = fmt.Sprintf("%x", []byte(r.e.HardLinkId))
 		}
@@ -554,7 +564,7 @@ func (s *State) Referenced() map[string][]string {
 func (s *State) String() string {
 	var b strings.Builder
 	for _, e := range s.Ents {
-		fmt.Fprintf(&b, "%s|d=%v|m=%o|t=%s|c=%s|r=%s|l=%s|n=%d/%d|w=%v\n", e.Path, e.Dir, e.Mode, e.T, strings.Join(e.Chunks, ","), strings.Join(e.Raw, ","), e.Link, e.Counter, e.RawCnt, e.Walked)
+		fmt.Fprintf(&b, "%s|d=%v|m=%o/%o|t=%s/%s|c=%s|r=%s|l=%s|n=%d/%d|w=%v\n", e.Path, e.Dir, e.Mode, e.RawMode, e.T, e.RawT, strings.Join(e.Chunks, ","), strings.Join(e.Raw, ","), e.Link, e.Counter, e.RawCnt, e.Walked)
 	}
 	for _, k := range s.KVs {
 		t := "n"
